@@ -325,8 +325,10 @@ class NpProxy:
         return _np.vdot(a, b)
 
     def angle(self, x):
+        if isinstance(x, Sym):
+            return path.sym_angle(x)          # constants, or a cancellation rule declared by the harness
         if _has_sym(x):
-            raise SymEscape("np.angle of symbolic value")
+            return _vec(lambda v: path.sym_angle(Sym.of(v)), x)
         return _np.angle(x)
 
 
